@@ -4,6 +4,8 @@ import FxpVerif.Props.C07
 import FxpVerif.Props.C09
 import FxpVerif.Props.C15
 import FxpVerif.Props.C19
+import FxpVerif.Props.C18
+import FxpVerif.Props.C14
 /-!
 # Source tie: the definitions generated from `fxpmath/functions.py` are the rules the theorems speak about
 
@@ -128,6 +130,48 @@ theorem mul_needs_pyint (x y : Fmt) (F : Int) (h : _root_.Fxp.mulNeedsPyInt x y 
   unfold _root_.Fxp.mulNeedsPyInt mulBits at h
   unfold Gen.mulNeedsPyInt
   cases hx : x.signed <;> cases hy : y.signed <;> simp_all <;> omega
+
+/-! ## Rules of `fxpmath/objects.py` -/
+
+theorem toNat_pred (n : Nat) : ((n : Int) - 1).toNat = n - 1 := by omega
+
+/-- the limits every store clamps / wraps to (`set_val`) are the model's `hi` / `lo`. -/
+theorem store_limits (f : Fmt) : Gen.storeLimits f.signed f.nword f.nint f.nfrac = (f.hi, f.lo) := by
+  unfold Gen.storeLimits Fmt.hi Fmt.lo
+  refine Prod.ext ?_ ?_ <;> simp only [] <;> cases f.signed <;> simp [toNat_pred] <;> omega
+
+/-- the limits `resize` reports (as `upper` / `lower`, after scaling by `2^-n_frac`) are the model's `hi` / `lo`. -/
+theorem resize_limits (f : Fmt) : Gen.resizeLimits f.signed f.nword f.nint f.nfrac = (f.hi, f.lo) := by
+  unfold Gen.resizeLimits Fmt.hi Fmt.lo
+  refine Prod.ext ?_ ?_ <;> simp only [] <;> cases f.signed <;> simp [toNat_pred] <;> omega
+
+/-- `n_int = n_word - n_frac - sign bit`. -/
+theorem nint_of (f : Fmt) : Gen.nintOf f.signed f.nword f.nint f.nfrac = f.nint := by
+  unfold Gen.nintOf Fmt.nint; cases f.signed <;> simp <;> omega
+
+/-- the extended-precision indicator is raised exactly for words of 64 bits and more (C18 `ext_flag_iff`). -/
+theorem extended_prec (f : Fmt) : Gen.extendedPrec f.signed f.nword f.nint f.nfrac = C18.extFlag f := by
+  unfold Gen.extendedPrec C18.extFlag; simp
+
+/-- expand-mode `>>`: the fraction grows by the number of bits that would be lost (the `e` of `rshiftExpand`). -/
+theorem rshift_expansion (cs : List Int) (n : Nat) :
+    (match minPow2 cs with
+     | some t => Gen.rshiftExpansion n t true
+     | none => Gen.rshiftExpansion n 0 false) =
+    ((match minPow2 cs with
+      | some t => if t < n then n - t else 0
+      | none => 0 : Nat) : Int) := by
+  unfold Gen.rshiftExpansion
+  cases minPow2 cs with
+  | none => simp
+  | some t => simp only []; split <;> simp_all <;> omega
+
+/-- expand-mode `<<`: the word grows to `max(n_word, largest bit length + sign bit + n)` (the `w` of `lshiftExpand`). -/
+theorem lshift_word (f : Fmt) (cs : List Int) (n : Nat) :
+    Gen.lshiftWord f.signed f.nword f.nint f.nfrac (maxInt (cs.map bitlen)) n =
+      max (f.nword : Int) (maxInt (cs.map bitlen) + lshiftExpand.bsigI f.signed + n) := by
+  unfold Gen.lshiftWord lshiftExpand.bsigI; cases f.signed <;> simp
+
 
 /-! ## The property theorems, restated about the generated rules
 
